@@ -1442,6 +1442,12 @@ def rebind_locals(text, binds, fn_name, rules):
                     raise ExtractError(f"anchor lost: binding `let _ = {init};` occurs more than once in {fn_name}")
                 found = toks[s_idx[k]].text
         if found is None:
+            # the initialiser was rewritten: when the function still binds a local of the contract's own name there is
+            # nothing to rename (the hints then speak about that local; if it means something else they simply fail)
+            sg0 = [toks[i] for i in s_idx]
+            if any(sg0[i].text == "let" and (sg0[i + 1].text == name or (sg0[i + 1].text == "mut" and sg0[i + 2].text == name))
+                   for i in range(len(sg0) - 2)):
+                continue
             raise ExtractError(f"anchor lost: binding `let _ = {init};` in {fn_name}")
         if found == name:
             continue
